@@ -152,4 +152,10 @@ theorem afterExport_spawn (o : ExportOpts) (m : VMap) :
   simp only [afterExport, spawnKeysAfter, entDelKey, List.mem_filter] at hkv
   simpa using hkv.2
 
+theorem parseMany_spec (t : List KV) (ps : List Bool) :
+    (parseMany t ps).1 = ps.map (fun p => parseTree p t) ∧ (parseMany t ps).2 = t := by
+  induction ps with
+  | nil => exact ⟨rfl, rfl⟩
+  | cons p r ih => simp only [parseMany, parseCall, List.map_cons, ih.1, ih.2, and_self]
+
 end C06
